@@ -738,8 +738,9 @@ def _check_rule(mon, tr, ph, t, ids, tv, pub):
             else:
                 k = int(t["evaluation_index"])
                 want = float(cov[k, k])
-                if t["costs"] is not None:
-                    want /= float(t["costs"][k])
+                costs = getattr(tr.alg, "costs", None)  # the algorithm's configured costs, not what the acquisition object was handed
+                if costs is not None:
+                    want /= float(np.asarray(costs, float)[k])
             mon.count("rule_values_checked")
             if abs(want - val) > 1e-9 * (1 + abs(want)):
                 mon.violation("acq:rule-value", f"{v}: {acq} value of design {i} is {val}, recomputed {want}", pub)
